@@ -135,6 +135,10 @@ static void skeleton_ops(Rng &rng, const ConnPlan &cp, int skeleton, const std::
     for (auto &x : cp.xchg) { emit(0, (size_t) x.req.a, (size_t) x.req.b, c0); emit(1, (size_t) x.res.a, (size_t) x.res.b, c1); }
 }
 
+struct PartSpec;
+static void c14_build(Rng &rng, Bytes &content_type, Bytes &body, std::vector<PartSpec> &parts, bool &lf_only);
+static void make_multipart_request(Rng &rng, MsgSpec &q);   // defined with the C14 material
+
 static void c03_plan(Rng &rng, Plan &p, uint64_t variant) {
     p.prop = "C03"; p.scenario = "diff";
     wellformed_cfg(rng, p.cfg);
@@ -142,6 +146,8 @@ static void c03_plan(Rng &rng, Plan &p, uint64_t variant) {
     int n = (int) rng.range(1, 4);
     if (rng.chance(1, 3)) { f.max_body = 40; f.many_headers = false; }   // short histories: the single-cut sweep visits every offset
     Script s = random_script(rng, f, n, 0);
+    // the statement covers parameters: some requests carry a multipart/form-data body (the matcher keeps state across calls)
+    if (rng.chance(1, 4)) { size_t k = rng.below(s.req.size()); if (s.req[k].method != "HEAD" && s.res[k].interim.empty()) make_multipart_request(rng, s.req[k]); }   // (a HEAD exchange has a body-less response by construction)
     p.conns.resize(1);
     build_conn_from_script(rng, s, p.conns[0], false);
     ConnPlan &cp = p.conns[0];
@@ -661,6 +667,17 @@ static void c14_build(Rng &rng, Bytes &content_type, Bytes &body, std::vector<Pa
     }
     body += "--" + boundary + "--" + eol;
     if (rng.chance(1, 6)) body += "epilogue";
+}
+
+static void make_multipart_request(Rng &rng, MsgSpec &q) {
+    Bytes ct, body; std::vector<PartSpec> parts; bool lf;
+    c14_build(rng, ct, body, parts, lf);
+    std::vector<HeaderSpec> keep; for (auto &h : q.headers) { std::string ln = lower(h.name); if (ln != "content-length" && ln != "transfer-encoding" && ln != "content-type" && ln != "expect") keep.push_back(h); } q.headers.swap(keep);
+    q.method = "POST"; q.trailers.clear(); q.chunk_sizes.clear(); q.chunk_ext.clear(); q.interim.clear();
+    { HeaderSpec h; h.name = "Content-Type"; h.value = ct; q.headers.push_back(h); }
+    q.body = q.payload = body;
+    if (q.version != "HTTP/1.1" || rng.coin()) { q.framing = FR_CL; HeaderSpec h; h.name = "Content-Length"; h.value = strfmt("%zu", body.size()); q.headers.push_back(h); }
+    else { q.framing = FR_CHUNKED; HeaderSpec h; h.name = "Transfer-Encoding"; h.value = "chunked"; q.headers.push_back(h); size_t left = body.size(); while (left) { size_t c = std::min<size_t>(left, (size_t) rng.range(1, 300)); q.chunk_sizes.push_back(c); left -= c; } }
 }
 
 static void c14_plan(Rng &rng, Plan &p) {
